@@ -42,7 +42,7 @@ type jsonParser struct {
 }
 
 // parseJSON parses a whole document; ok=false for anything simdjson rejects (the JSON* functions then
-// return their default: '', empty array, 'Null').
+// return their default: ”, empty array, 'Null').
 func parseJSON(s string) (*jsonNode, bool) {
 	if !utf8.ValidString(s) {
 		return nil, false
